@@ -102,3 +102,27 @@ def say(*a):
 def die_machinery(msg):
     say("MACHINERY-ERROR:", msg)
     sys.exit(EXIT_MACHINERY)
+
+
+class _Sink(__import__("logging").Handler):
+    """Formats every record (so that the arguments of log calls are really evaluated) and drops it."""
+
+    def emit(self, record):
+        try:
+            self.format(record)
+        except Exception:
+            pass
+
+
+def set_logging(verbose):
+    """The process-wide logging mode of an execution (added after seed C18g: a debug trace that consumed an iterator).
+    verbose: everything down to DEBUG is enabled and formatted, as under logging.basicConfig(level=logging.DEBUG);
+    otherwise logging is disabled, the library's default silence."""
+    import logging
+    root = logging.getLogger()
+    if verbose:
+        logging.disable(logging.NOTSET)
+        root.handlers = [_Sink()]
+        root.setLevel(logging.DEBUG)
+    else:
+        logging.disable(logging.CRITICAL)
